@@ -112,6 +112,8 @@ def scope(tier, seed):
             + '; CTL formulas with quantified operands (Q[a U/R b], Q[b U a], QX/QF/QG b; b one-operator '
             'quantified) on the K(3,{p}) representatives' + (' (a seed-indexed third of the formulas on half of the structures)' if tier == 'quick' else '')
             + '; structures that already carry user atoms named fair / fair0 (CTL, K(<=3,{p}))'
+            + '; label sets shared between states or frozen, installed via replace_labelling_function; F as key '
+            'views; every list of 3 (n<=3) and 4 (n<=2) constraints for get_fair_states'
             + '; additionally one-operator formulas over the literal leaves p, not p, q, not q ('
             + ('CTL only' if tier == 'quick' else 'all three logics') + ')'}
 
@@ -132,6 +134,8 @@ def plan(tier, seed):
         sh.append(['mc3n', lo, hi])
     for lo, hi in chunks(len(_k3()), 16):
         sh.append(['userfair', lo, hi])
+    for lo, hi in chunks(len(_k3()), 16):
+        sh.append(['shared', lo, hi])
     if tier == 'thorough':
         for lo, hi in chunks(82, 1):
             sh.append(['mc2', lo, hi, 1])
@@ -143,7 +147,10 @@ def plan(tier, seed):
 def check_fair_states(k, F, order, acc, as_frozen):
     names = list(order)
     Kl = Kripke(S=names, R=[(i, j) for i in range(k.n) for j in k.succ[i]])
-    Farg = [(frozenset(P) if as_frozen else set(P)) for P in F]
+    if as_frozen == 'view':
+        Farg = [dict((x, 1) for x in P).keys() for P in F]
+    else:
+        Farg = [(frozenset(P) if as_frozen else set(P)) for P in F]
     Fcopy = [set(P) for P in Farg]
     snap = lib.snapshot_kripke(Kl)
     res = as_state_set(call(Kl.get_fair_states, Farg))
@@ -172,7 +179,10 @@ def check_fair_states(k, F, order, acc, as_frozen):
 
 def check_mc(k, Kl, F, logic, f, acc, as_frozen, audit=False):
     install_recorder()
-    Farg = [(frozenset(P) if as_frozen else set(P)) for P in F]
+    if as_frozen == 'view':
+        Farg = [dict((x, 1) for x in P).keys() for P in F]
+    else:
+        Farg = [(frozenset(P) if as_frozen else set(P)) for P in F]
     Fcopy = [set(P) for P in Farg]
     snap = lib.snapshot_kripke(Kl)
     del _REC[:]
@@ -239,6 +249,15 @@ def run_shard(shard, tier, seed, acc):
                 for i, F in enumerate(f_lists(n)):
                     for order in (list(range(n)), list(range(n))[::-1]):
                         check_fair_states(k, F, order, acc, as_frozen=(i % 2 == 1))
+                    if i % 3 == 0:
+                        check_fair_states(k, F, list(range(n)), acc, as_frozen='view')
+                # lists of 3 and 4 constraints (more constraints than states, repeated sets)
+                subs = [frozenset(c) for r_ in range(1, n + 1) for c in itertools.combinations(range(n), r_)]
+                for combo in itertools.product(subs, repeat=3):
+                    check_fair_states(k, list(combo), list(range(n)), acc, as_frozen=False)
+                if n <= 2:
+                    for combo in itertools.product(subs, repeat=4):
+                        check_fair_states(k, list(combo), list(range(n)), acc, as_frozen=True)
         acc.sample({'graph': [[0, 1], [0, 1], [0]], 'F': [[1], [0, 2]], 'op': 'get_fair_states'})
         return
     if kind == 'fs4':
@@ -292,6 +311,38 @@ def run_shard(shard, tier, seed, acc):
                         if r == 'stop':
                             Kl = lib.to_kripke(k)
             acc.sample({'k': k.to_json(), 'F': 'all lists of <=2 subsets', 'logics': ['CTL', 'LTL', 'CTLS']})
+        return
+    if kind == 'shared':
+        # label sets installed through replace_labelling_function are the caller's own objects and may be
+        # shared between states (also frozensets); F may hold set-like key views; 3-4 constraints
+        Pp = spaces.P
+        forms = formulas('CTL', (Pp,))[::2] + [('E', ('X', ('not', Pp))), ('A', ('G', ('E', ('F', Pp))))]
+        lforms = formulas('LTL', (Pp,))[::3]
+        for k in _k3()[shard[1]:shard[2]][(seed % 3)::3] + (list(spaces.kripke_reps(2, ('p',))) if shard[1] == 0 else []):
+            yes = set(['p'])
+            no = set()
+            for variant in ('shared-sets', 'frozensets'):
+                def fresh_K():
+                    K_ = Kripke(S=list(range(k.n)), R=[(i, j) for i in range(k.n) for j in k.succ[i]])
+                    if variant == 'shared-sets':
+                        y, n_ = set(['p']), set()
+                        K_.replace_labelling_function(dict((i, y if 'p' in k.lab[i] else n_) for i in range(k.n)))
+                    else:
+                        K_.replace_labelling_function(dict((i, frozenset(k.lab[i])) for i in range(k.n)))
+                    return K_
+                Kl = fresh_K()
+                Fl = f_lists(k.n, 1) + [[frozenset([0]), frozenset([k.n - 1]), frozenset(range(k.n))]]
+                for logic, fs_ in (('CTL', forms), ('LTL', lforms), ('CTLS', forms[::4])):
+                    for j, f in enumerate(fs_):
+                        if deadline_passed():
+                            acc.capped()
+                            return
+                        for i, F in enumerate(Fl):
+                            r = check_mc(k, Kl, F, logic, f, acc, as_frozen=('view' if (i + j) % 3 == 0 else bool((i + j) % 2)))
+                            if r == 'stop':
+                                Kl = fresh_K()
+        acc.sample({'labels': 'one set object shared by several states / frozensets, installed with '
+                              'replace_labelling_function', 'F': 'sets, frozensets, dict key views, 3 constraints'})
         return
     if kind == 'userfair':
         # the structure already carries atoms called 'fair' / 'fair0' on some states (the user's own
